@@ -50,41 +50,29 @@ Theorem C14_endblock_pays : forall s t, wf s -> qcoverb s = true ->
 Proof. exact endblock_pays. Qed.
 Print Assumptions C14_endblock_pays.
 
-(* staking indexes: the three that Execute rewrites stay exact ... *)
-Theorem C14_indexes_kept : forall (sigT : Type) (recover : Z -> Z -> sigT -> option Z) s from to sg s',
+(* staking indexes: DelegationByValIndex 0x71, UnbondingDelegationByValIndex 0x33, RedelegationByValSrc/Dst
+   0x35/0x36 and the unbonding-id index 0x38 are exact afterwards if they were before; every moved entry is
+   found by its id and the index then names a key of the target (unb_writes from to s lists only such keys) *)
+Theorem C14_indexes : forall (sigT : Type) (recover : Z -> Z -> sigT -> option Z) s from to sg s',
   wf s -> migrate_tx sigT recover s from to sg = Ok s' ->
-  (idx33_ok s -> idx33_ok s') /\ (idx35_ok s -> idx35_ok s') /\ (idx36_ok s -> idx36_ok s').
-Proof. exact indexes_kept. Qed.
-Print Assumptions C14_indexes_kept.
+  (idx71_ok s -> idx71_ok s') /\ (idx33_ok s -> idx33_ok s') /\ (idx35_ok s -> idx35_ok s') /\
+  (idx36_ok s -> idx36_ok s') /\ (idx38_ok s -> idx38_ok s') /\
+  (forall kv e, In kv (ubds (stake s)) -> fst (fst kv) = from -> In e (u_entries (snd kv)) ->
+     exists k, sget Z.eqb (ue_id e) (unbidx (stake s')) = Some k /\ In (ue_id e, k) (unb_writes from to s)) /\
+  (forall kv e, In kv (reds (stake s)) -> fst (fst kv) = from -> In e (r_entries (snd kv)) ->
+     exists k, sget Z.eqb (re_id e) (unbidx (stake s')) = Some k /\ In (re_id e, k) (unb_writes from to s)).
+Proof. exact indexes. Qed.
+Print Assumptions C14_indexes.
 
-(* ... DelegationByValIndex (0x71) is left as it was: consistent afterwards iff the source had no delegation *)
-Theorem C14_index71_stale : forall (sigT : Type) (recover : Z -> Z -> sigT -> option Z) s from to sg s',
-  wf s -> idx71_ok s -> migrate_tx sigT recover s from to sg = Ok s' ->
-  (forall v, del_of s from v <> None ->
-     in71 s' from v = true /\ del_of s' from v = None /\ in71 s' to v = false /\ del_of s' to v <> None) /\
-  (idx71_ok s' <-> forall v, del_of s from v = None).
-Proof. exact index71_stale. Qed.
-Print Assumptions C14_index71_stale.
-
-(* ... and UnbondingIndex (0x38) keeps pointing at the source's deleted records *)
-Theorem C14_index38_stale : forall (sigT : Type) (recover : Z -> Z -> sigT -> option Z) s from to sg s',
-  wf s -> migrate_tx sigT recover s from to sg = Ok s' ->
-  (forall id v, sget Z.eqb id (unbidx (stake s)) = Some (UKubd from v) ->
-     sget Z.eqb id (unbidx (stake s')) = Some (UKubd from v) /\ ubd_of s' from v = None) /\
-  (forall id v w, sget Z.eqb id (unbidx (stake s)) = Some (UKred from v w) ->
-     sget Z.eqb id (unbidx (stake s')) = Some (UKred from v w) /\ red_of s' from v w = None).
-Proof. exact index38_stale. Qed.
-Print Assumptions C14_index38_stale.
-
-Theorem C14_indexes_refuted :
+Theorem C14_indexes_nonvacuous :
   wf ex_init /\ qcoverb ex_init = true /\
   idx71_ok ex_init /\ idx33_ok ex_init /\ idx38b ex_init = true /\
   migrate_tx unit sig_any ex_init 1 5 (Some tt) = Ok ex_after /\
-  ~ idx71_ok ex_after /\ idx33_ok ex_after /\ idx38b ex_after = false /\
-  in71 ex_after 1 13 = true /\ del_of ex_after 1 13 = None /\ in71 ex_after 5 13 = false /\ del_of ex_after 5 13 <> None /\
-  sget Z.eqb 1 (unbidx (stake ex_after)) = Some (UKubd 1 13) /\ ubd_of ex_after 1 13 = None.
-Proof. exact index_refuted. Qed.
-Print Assumptions C14_indexes_refuted.
+  idx71_ok ex_after /\ idx33_ok ex_after /\ idx38b ex_after = true /\
+  in71 ex_after 1 13 = false /\ in71 ex_after 5 13 = true /\
+  sget Z.eqb 1 (unbidx (stake ex_after)) = Some (UKubd 5 13) /\ sget Z.eqb 2 (unbidx (stake ex_after)) = Some (UKubd 9 13).
+Proof. exact index_example. Qed.
+Print Assumptions C14_indexes_nonvacuous.
 
 (* authorisation: accepted => signed by the target over exactly (source, target); no prior record;
    no validator operator; target without staking records *)
@@ -112,53 +100,44 @@ Theorem C14_once : forall (sigT : Type) (recover : Z -> Z -> sigT -> option Z) s
 Proof. exact once. Qed.
 Print Assumptions C14_once.
 
-(* governance.  The property (refused while source/target is proposer, depositor or voter of an OPEN
-   proposal) is false of the code: *)
-Theorem C14_gov_block_refuted :
-  wf ex_gov /\ now ex_gov = 10 /\
-  (involved_open ex_gov 1 /\ involved_open ex_gov 2 /\ involved_open ex_gov 3) /\
-  forall sigT (recover : Z -> Z -> sigT -> option Z),
-    (forall x, recover 1 5 x = Some 5 -> exists s', migrate_tx sigT recover ex_gov 1 5 (Some x) = Ok s') /\
-    (forall x, recover 2 6 x = Some 6 -> exists s', migrate_tx sigT recover ex_gov 2 6 (Some x) = Ok s') /\
-    (forall x, recover 3 7 x = Some 7 -> exists s', migrate_tx sigT recover ex_gov 3 7 (Some x) = Ok s').
-Proof. exact gov_block_refuted. Qed.
-Print Assumptions C14_gov_block_refuted.
-
-(* what holds instead: a QUEUED proposal whose end time is ALREADY REACHED blocks ... *)
-Theorem C14_gov_block_guarded : forall (sigT : Type) (recover : Z -> Z -> sigT -> option Z) s from to sg,
-  seen_inactive s from to \/ seen_active s from to ->
+(* governance: refused while the source or the target is proposer, depositor or voter of a proposal that is
+   still open (status deposit or voting period), on every state with the gov store shape govwfb *)
+Theorem C14_gov_block : forall (sigT : Type) (recover : Z -> Z -> sigT -> option Z) s from to sg,
+  govwfb s = true -> involved_open s from \/ involved_open s to ->
   forall s', migrate_tx sigT recover s from to sg <> Ok s'.
-Proof. exact gov_guarded. Qed.
-Print Assumptions C14_gov_block_guarded.
+Proof. exact gov_block. Qed.
+Print Assumptions C14_gov_block.
 
-(* ... and nothing else does: the scan passes iff no such proposal exists; queues whose end times all lie
-   in the future (every open proposal after the previous end blocker) hide everything *)
+(* the scan refuses exactly the queued proposals involving the pair (no spurious refusal) *)
 Theorem C14_gov_scan_exact : forall s from to, queued_exist s ->
   (gov_validate from to s = Ok tt <-> ~ seen_inactive s from to /\ ~ seen_active s from to).
 Proof. exact gov_exact. Qed.
 Print Assumptions C14_gov_scan_exact.
 
-Theorem C14_gov_scan_blind : forall s from to,
+Theorem C14_gov_block_nonvacuous :
+  wf ex_gov /\ govwfb ex_gov = true /\ now ex_gov = 10 /\
+  (involved_open ex_gov 1 /\ involved_open ex_gov 2 /\ involved_open ex_gov 3) /\
+  migrate_tx unit sig_any ex_gov 1 5 (Some tt) = Err EGov /\
+  migrate_tx unit sig_any ex_gov 2 6 (Some tt) = Err EGov /\
+  migrate_tx unit sig_any ex_gov 3 7 (Some tt) = Err EGov /\
+  migrate_tx unit sig_any ex_gov 6 7 (Some tt) = Err EAccount.
+Proof. exact gov_block_example. Qed.
+Print Assumptions C14_gov_block_nonvacuous.
+
+(* REGRESSION WITNESS, NOT THE MODEL: the validation function as it was before commit f80617f (finding C14-1)
+   stopped its walk at the block time and therefore passed whenever all queued end times lay in the future;
+   on the example history it passed where today's scan refuses *)
+Theorem C14_prefix_scan_was_blind : forall s from to,
   (forall te pid, In (te, pid) (inactiveq (gov s)) -> now s < te) ->
   (forall te pid, In (te, pid) (activeq (gov s)) -> now s < te) ->
-  gov_validate from to s = Ok tt.
-Proof. exact gov_blind. Qed.
-Print Assumptions C14_gov_scan_blind.
+  prefix_gov_validate from to s = Ok tt.
+Proof. exact prefix_scan_was_blind. Qed.
+Print Assumptions C14_prefix_scan_was_blind.
 
-(* consequence: the deposit of the still-open proposal is later refunded to the emptied source *)
-Theorem C14_source_refilled :
-  let s := run unit sig_any ex_init (ex_gov_ops ++ [OMigrate unit 1 5 (Some tt)]) in
-  let s' := run unit sig_any ex_init ex_refill_ops in
-  has_record s 1 = true /\ (forall d, bal_of s 1 d = 0) /\
-  has_record s' 1 = true /\ bal_of s' 1 0 = 1000.
-Proof. exact source_refilled. Qed.
-Print Assumptions C14_source_refilled.
-
-Theorem C14_gov_guard_nonvacuous :
-  let s := run unit sig_any ex_init [OSubmit unit 1 1000; OEndBlock unit 1005 1010 []] in
-  seen_inactive s 1 5 /\ migrate_tx unit sig_any s 1 5 (Some tt) = Err EGov.
-Proof. exact gov_guard_nonvacuous. Qed.
-Print Assumptions C14_gov_guard_nonvacuous.
+Theorem C14_prefix_scan_example :
+  prefix_gov_validate 1 5 ex_gov = Ok tt /\ gov_validate 1 5 ex_gov = Err EGov.
+Proof. exact prefix_scan_example. Qed.
+Print Assumptions C14_prefix_scan_example.
 
 Theorem C14_moved_nonvacuous :
   wf ex_init /\ qcoverb ex_init = true /\ migrate_tx unit sig_any ex_init 1 5 (Some tt) = Ok ex_after /\
